@@ -176,6 +176,32 @@ func (x *planExec) checkC07(op *Op, res *OpResult, meta *C07Meta, method string)
 		kinds = append(kinds, stepKind(st))
 	}
 	chain := strings.Join(kinds, ">")
+	// domain: the working data stay finite. Chains of exponential anchoring functions on values a
+	// fatigue step pushed far outside a narrow declared range overflow float64 (a valid-looking
+	// request ends as "json: unsupported value: +Inf"): numeric overflow, not a composition defect,
+	// and reports containing NaN / Inf cannot be rendered for comparison at all.
+	nonFinite := strings.Contains(errText(res), "unsupported value")
+	for _, st := range rec.Steps {
+		if st.ReportJSONErr != "" {
+			nonFinite = true
+		}
+		for _, sn := range []*StateSnap{st.Current, st.Next} {
+			if sn == nil {
+				continue
+			}
+			for _, a := range sn.all() {
+				for _, v := range a.Criteria {
+					if math.IsNaN(v) || math.IsInf(v, 0) {
+						nonFinite = true
+					}
+				}
+			}
+		}
+	}
+	if nonFinite {
+		x.out.Stats.Probes["c07-outside-domain-non-finite-values"]++
+		return
+	}
 	for i, st := range rec.Steps {
 		x.out.Stats.Cells[fmt.Sprintf("%s/%s@%d", method, kinds[i], i+1)]++
 		if i > 0 {
